@@ -104,6 +104,9 @@ var c02Shapes = []podShape{
 	{name: "x-anti-x-zone", cpu: 500, mods: []func(*corev1.Pod){lbl("app", "x"), antiAff(corev1.LabelTopologyZone, "x", false)}},
 	{name: "x-anti-y-zone", cpu: 500, mods: []func(*corev1.Pod){lbl("app", "x"), antiAff(corev1.LabelTopologyZone, "y", false)}},
 	{name: "y-anti-x-hostname", cpu: 500, mods: []func(*corev1.Pod){lbl("app", "y"), antiAff(corev1.LabelHostname, "x", false)}},
+	// the same carrier, smaller (so it is dequeued AFTER the pod it repels) and with a preference nothing satisfies: it is
+	// relaxed and re-evaluated after that pod was placed in the same pass
+	{name: "y-anti-x-hostname+unsatisfiable-preference", cpu: 400, mods: []func(*corev1.Pod){lbl("app", "y"), antiAff(corev1.LabelHostname, "x", false), preferred(10, nsr(corev1.LabelTopologyZone, corev1.NodeSelectorOpIn, "nowhere"))}},
 	{name: "x-anti-y-zone-all-namespaces", cpu: 500, mods: []func(*corev1.Pod){lbl("app", "x"), antiAff(corev1.LabelTopologyZone, "y", true)}},
 	{name: "x-aff-x-zone", cpu: 500, mods: []func(*corev1.Pod){lbl("app", "x"), aff(corev1.LabelTopologyZone, "x")}},
 	{name: "x-aff-y-hostname", cpu: 500, mods: []func(*corev1.Pod){lbl("app", "x"), aff(corev1.LabelHostname, "y")}},
